@@ -46,7 +46,10 @@ def make (c):
                     g [k][2] = 0.0
         return gen.clean (spec)
     rng  = np.random.default_rng ([c ['seed'], 3, c ['i']])
-    spec = gen.fam_ground (rng, seg_hi = 1 / 20.5, shift = bool (rng.random () < 0.5))
+    # every tenth case: separately grounded wires whose feet are a fraction of a segment apart (image theory does
+    # not rest on the spacing rule of the guidelines; the statement lists "several grounded wires")
+    close = c ['i'] % 10 == 9
+    spec = gen.fam_ground (rng, fam = 'close' if close else None, seg_hi = 1 / 20.5, shift = bool (rng.random () < 0.5))
     gen.add_sources (rng, spec, nmax = 3)
     # tapered wires (floor of 8.5 radii): the ground pulse of a wire tapered towards the other end has halves of
     # the first, not the last, segment
@@ -127,6 +130,9 @@ def check (c):
     ok, why, facts = gen.validity (mg, seg_max = 1 / 10., check_junction_ratio = 2.1 if tapered else None)
     if tapered:
         why = [w for w in why if w != 'segment < lambda/200']      # short segments are what tapering is for
+        ok  = not why
+    if str (spec.get ('fam', '')).startswith ('close'):
+        why = [w for w in why if w not in ('unconnected wires < 2 segment lengths apart', 'more than one wire on a ground point')]
         ok  = not why
     if not ok:
         return dict (status = 'discard', reason = 'validity: ' + why [0])
